@@ -111,6 +111,19 @@ def scenarios() -> list[tuple]:
         for ini in initiators:
             for ph in phases:
                 out.append((h, ini, ph))
+        # a node of the path dies (endpoint closed) while the circuit is being built; the originator stays: it retries,
+        # gives up within circuit_timeout, and everything the attempt left on the path is reclaimed
+        for name in path:
+            for ph in phases[:build_msgs - 1]:
+                out.append((h, f"dead:{name}", ph))
+        # ... and the same with a second candidate (A1) for that position, so that the retry has somebody to turn to:
+        # pos 0 = the first hop O picked dies, pos 1 (h = 3) = the second hop O picked from R1's candidates dies
+        if h >= 2:
+            for ph in [("build", 0)] + phases[:build_msgs - 1]:
+                out.append((h, "deadalt:0", ph))
+        if h == 3:
+            for ph in phases[2:build_msgs - 1]:
+                out.append((h, "deadalt:1", ph))
         # the same abandonment, but every relay/exit on the path also *wants* circuits of its own that it cannot
         # build (it knows no exit): its periodic do_circuits() takes the "creation failed" branch before the sweep
         for ph in phases:
@@ -142,6 +155,8 @@ def run_one(scn: tuple, faults: dict[int, str], seed: int):  # noqa: ANN201
     if busy and busy.startswith("busy-legacy"):
         w = TunnelWorld(("c09", seed, scn), {**ROLES, "L": EXIT_ALL}, key_offset=seed,
                         curves={"L": busy.split(":")[1]})
+    elif ini.startswith("deadalt"):
+        w = TunnelWorld(("c09", seed, scn), {**ROLES, "A1": RELAY}, key_offset=seed)
     else:
         w = TunnelWorld(("c09", seed, scn), ROLES, key_offset=seed)
     if busy == "noipv6":
@@ -153,7 +168,18 @@ def run_one(scn: tuple, faults: dict[int, str], seed: int):  # noqa: ANN201
             # the legacy-key peer becomes known to the path nodes only once the circuit under test exists
             for name in ROLES:
                 ov[name].candidates.pop(w.peer_of(name, "L"), None)
-        c = w.start_circuit("O", path)
+        if ini.startswith("deadalt"):
+            if ini == "deadalt:0":
+                w.restrict("O", ["R1", "A1", "X"])
+                if h == 3:
+                    w.restrict("R1", ["R2"])
+                    w.restrict("A1", ["R2"])
+            else:
+                w.restrict("O", ["R1", "X"])
+                w.restrict("R1", ["R2", "A1"])
+            c = w.nodes["O"].run(ov["O"].create_circuit, h, required_exit=w.peer_of("O", "X"))
+        else:
+            c = w.start_circuit("O", path)
         cid = c.circuit_id
         if phase == "build":
             for _ in range(k):
@@ -211,6 +237,12 @@ def run_one(scn: tuple, faults: dict[int, str], seed: int):  # noqa: ANN201
         trail = f"h={h} faults={faults} action={did}; first datagrams after trigger: {plan.log[:10]}"
         if ini == "O" and did == "remove_circuit" and cid in ov["O"].circuits:
             viol.append((f"originator-keeps-circuit|phase:{phase}", f"O still has the circuit it removed; {trail}"))
+        if live and o_circ.state == "EXTENDING":
+            # circuit_timeout (60 s) bounds the time a circuit may take to be built; the deadline lies 40 s beyond it
+            viol.append((f"still-extending-at-deadline|initiator:{ini.split(':')[0]}|phase:{phase}",
+                         f"O still holds the circuit in state EXTENDING with {len(o_circ.hops)} of {o_circ.goal_hops} "
+                         f"hops {T:.0f}s after the trigger (request cache: "
+                         f"{sorted(ov['O'].request_cache._identifiers)}); {trail}"))
         if live:
             # Not reclaimed because it is still in use: the originator never learnt of the teardown (or re-built the
             # circuit by retrying) and keeps it alive with pings. That is a working circuit, not a leak.
@@ -245,6 +277,17 @@ def _teardown(w: TunnelWorld, ini: str, cid: int) -> str:
     if ini == "offline":
         w.nodes["O"].endpoint.close()
         return "origin-offline"
+    if ini.startswith("dead:"):
+        w.nodes[ini[5:]].endpoint.close()
+        return f"{ini[5:]}-offline"
+    if ini.startswith("deadalt:"):
+        c = w.ov["O"].circuits[cid]
+        pos = int(ini[8:])
+        hop = c.hops[pos] if len(c.hops) > pos else c.unverified_hop
+        name = next(n for n, node in w.nodes.items()
+                    if node.my_peer.public_key.key_to_bin() == hop.peer.public_key.key_to_bin())
+        w.nodes[name].endpoint.close()
+        return f"{name}-offline(position {pos})"
     ov = w.ov[ini]
     node = w.nodes[ini]
     if ini == "O":
@@ -713,7 +756,8 @@ def explore_scenarios(chunk: list) -> list:
                     viols[key] = (what, {"scenario": scn, "faults": faults, "seed": _SEED})
             return n
 
-        bound = 1 if ("chatty" in str(scn[1]) and _BOUND <= 2) else _BOUND   # quick: chatty scenarios get single faults
+        # quick: chatty and dead-node scenarios get single faults
+        bound = 1 if (("chatty" in str(scn[1]) or str(scn[1]).startswith("dead")) and _BOUND <= 2) else _BOUND
 
         def dfs(drops: tuple, n: int) -> None:
             if len(drops) >= bound:
@@ -852,7 +896,7 @@ def run(ctx: core.Ctx) -> core.Report:
         for s in scns:
             h, ini, (ph, k) = s
             last = {1: 1, 2: 5, 3: 11}[h]
-            if ph != "build" or k in (1, last, (last + 1) // 2):
+            if ph != "build" or k in (1, last, (last + 1) // 2) or (str(ini).startswith("deadalt") and k in (0, 3)):
                 keep.append(s)
         scns = keep
     _HS_BOUND = 2 if ctx.thorough else 1
